@@ -71,6 +71,7 @@ type stubServer struct {
 	ribSent      map[uint64]bool
 	violated     bool
 	violation    string
+	maxElec      [2]uint64
 	nextSendFail map[int]error
 	nextRecvFail map[int]error
 	opsSeen      map[uint64]*spb.AFTOperation
@@ -228,8 +229,11 @@ func (s *stubServer) serve(st *stubStream) {
 		case m.Params != nil:
 			emit(&spb.ModifyResponse{SessionParamsResult: &spb.SessionParametersResult{Status: spb.SessionParametersResult_OK}})
 		case m.ElectionId != nil:
-			// an election response may overtake results that are still held back
-			emit(&spb.ModifyResponse{ElectionId: m.ElectionId})
+			// an election response may overtake results that are still held back; it carries the highest id seen
+			if id := [2]uint64{m.ElectionId.High, m.ElectionId.Low}; !less128(id, s.maxElec) {
+				s.maxElec = id
+			}
+			emit(&spb.ModifyResponse{ElectionId: uint128(s.maxElec)})
 			if len(pool) > 0 {
 				sim.Probe("client: election response interleaved with outstanding results")
 			}
@@ -349,7 +353,12 @@ func genCli(seed uint64, prop string) *Scenario {
 		st.T = "q"
 		sc.Steps = append(sc.Steps, st)
 		if r.IntN(8) == 0 {
-			id := [2]uint64{0, uint64(2 + i)}
+			// election updates with both words in play, not necessarily increasing (the server answers with the
+			// highest id it has seen, which need not be the one just announced)
+			id := [2]uint64{uint64(r.IntN(3)), []uint64{1, 2, 5, uint64(2 + i), 1 << 63, ^uint64(0)}[r.IntN(6)]}
+			if r.IntN(3) == 0 {
+				id[0] = 0
+			}
 			sc.Steps = append(sc.Steps, Step{T: "q-elect", Elec: &id})
 		}
 	}
@@ -414,6 +423,42 @@ func genCliFaultEnum(seed uint64, prop string) *Scenario {
 
 func genCliFault(seed uint64, prop string) *Scenario {
 	r := rand.New(rand.NewPCG(seed, 0x636c6d))
+	if r.IntN(6) == 0 {
+		// No fault at all, but the application does not wait: Close or Reset arrives while requests are still
+		// buffered or being written to a healthy stream. The sender must finish (half-close), the server ends the
+		// RPC, the receiver sees it - and Close / Reset return with nobody left behind.
+		cfg := ScenCfg{Default: "DEFAULT", VRFs: []string{"VRF-A"}, FwdRefs: true}
+		cfg.Policy = []string{"coarse", "fine", "pct", "fine"}[r.IntN(4)]
+		cfg.PCTDepth = 1 + r.IntN(3)
+		cfg.FIBAck = r.IntN(2) == 0
+		sc := &Scenario{Family: "clifault", Seed: seed, Cfg: cfg}
+		g := newGen(seed, 0x636c70, &sc.Cfg)
+		sc.Steps = append(sc.Steps, Step{T: "server", A: 0, B: 1 + r.IntN(3)})
+		lateStart := r.IntN(3) == 0
+		if !lateStart {
+			sc.Steps = append(sc.Steps, Step{T: "start"})
+		}
+		for i := 0; i < 1+r.IntN(8); i++ {
+			st := g.batchStep(0, cliOps(g, 1+g.pick(3)))
+			st.T = "q"
+			sc.Steps = append(sc.Steps, st)
+		}
+		if lateStart {
+			sc.Steps = append(sc.Steps, Step{T: "start"})
+		}
+		if r.IntN(2) == 0 {
+			sc.Steps = append(sc.Steps, Step{T: "burst", A: 1 + r.IntN(8)}, Step{T: "burst-join"})
+		}
+		if r.IntN(2) == 0 {
+			sc.Steps = append(sc.Steps, Step{T: "close"})
+		} else {
+			sc.Steps = append(sc.Steps, Step{T: "reset", A: r.IntN(2)}, Step{T: "reconnect"})
+			st := g.batchStep(0, cliOps(g, 2))
+			st.T = "q"
+			sc.Steps = append(sc.Steps, st, Step{T: "await", A: 60}, Step{T: "close"})
+		}
+		return sc
+	}
 	sc := cliFaultScenario(seed, "clifault", r.IntN(2), r.IntN(12), r.IntN(5), []int{0, 1, 3, 6, 12, 30}[r.IntN(6)], r.IntN(2), r)
 	if r.IntN(4) == 0 {
 		// a backlog: requests are queued BEFORE sending is started (more of them than the request channel holds),
@@ -486,7 +531,7 @@ type cliRun struct {
 	handed     map[uint64]*spb.AFTOperation // every operation handed to Q
 	order      []uint64
 	nextID     uint64
-	elec       uint64
+	elec       [2]uint64
 	faulted    bool
 	faultWhat  string
 	afterReset bool
@@ -614,7 +659,7 @@ func runCli(e *env) {
 	if e.sc.Family == "clifaultenum" {
 		e.probe(fmt.Sprintf("faultpoint %03d", e.sc.Seed%CliFaultSpace))
 	}
-	cr := &cliRun{e: e, handed: map[uint64]*spb.AFTOperation{}, inQ: map[uint64]bool{}, nextID: 1, elec: 1}
+	cr := &cliRun{e: e, handed: map[uint64]*spb.AFTOperation{}, inQ: map[uint64]bool{}, nextID: 1, elec: [2]uint64{0, 1}}
 	cr.srv = &stubServer{e: e, fib: e.sc.Cfg.FIBAck, maxBatch: 1, terminal: map[uint64]spb.AFTResult_Status{}, ribSent: map[uint64]bool{}, opsSeen: map[uint64]*spb.AFTOperation{}, violIdx: -1, lastTermIdx: -1}
 	cr.newClient()
 	ctx := context.Background()
@@ -694,7 +739,7 @@ func runCli(e *env) {
 			for _, op := range ops {
 				op.Id = cr.nextID
 				cr.nextID++
-				op.ElectionId = &spb.Uint128{Low: cr.elec}
+				op.ElectionId = uint128(cr.elec)
 				cr.handed[op.Id] = op
 				cr.order = append(cr.order, op.Id)
 			}
@@ -715,7 +760,7 @@ func runCli(e *env) {
 			for _, op := range ops {
 				op.Id = cr.nextID
 				cr.nextID++
-				op.ElectionId = &spb.Uint128{Low: cr.elec}
+				op.ElectionId = uint128(cr.elec)
 			}
 			i := st.A % (len(ops) - 1)
 			ops[i+1].Id = ops[i].Id
@@ -750,7 +795,7 @@ func runCli(e *env) {
 			}
 			e.probe("client: request with a repeated operation id did not converge silently")
 		case "q-elect":
-			cr.elec = st.Elec[1]
+			cr.elec = *st.Elec
 			cr.timed("Q", func() { cr.c.Q(&spb.ModifyRequest{ElectionId: uint128(*st.Elec)}) })
 		case "burst":
 			// the application keeps queueing while the stream may be failing
@@ -761,7 +806,7 @@ func runCli(e *env) {
 				for k := 0; k < n; k++ {
 					id := cr.nextID
 					cr.nextID++
-					op := &spb.AFTOperation{Id: id, NetworkInstance: "DEFAULT", Op: spb.AFTOperation_ADD, ElectionId: &spb.Uint128{Low: cr.elec},
+					op := &spb.AFTOperation{Id: id, NetworkInstance: "DEFAULT", Op: spb.AFTOperation_ADD, ElectionId: uint128(cr.elec),
 						Entry: &spb.AFTOperation_NextHop{NextHop: &aftpb.Afts_NextHopKey{Index: 100 + id, NextHop: &aftpb.Afts_NextHop{}}}}
 					cr.handed[id] = op
 					cr.order = append(cr.order, id)
@@ -770,6 +815,12 @@ func runCli(e *env) {
 					delete(cr.inQ, id)
 				}
 			})
+		case "burst-join":
+			// the queueing calls themselves return (the stream is healthy); what they queued is still on its way
+			if !burstDone && !simrt.WaitUntil("burst-join", "queueing burst returns", 10*time.Second, func() bool { return burstDone }) {
+				e.report("C14", "q-blocked", "a call queueing a request on a healthy stream never returned", e.sim.Describe(), false)
+			}
+			cr.pollStop = true // Close / Reset follow at once: the accounting of the abandoned exchange is not judged
 		case "await":
 			cr.await(st)
 			if !burstDone {
